@@ -21,7 +21,7 @@ const NON_WORKER_COUNT: usize = 2;
 enum State<R> {
     Paused(R),
     Running {
-        reader_handle: JoinHandle<Result<R, ReadError<R>>>,
+        reader_handle: JoinHandle<R>,
         read_rx: ReadRx,
         recycle_tx: RecycleTx,
     },
@@ -95,7 +95,7 @@ impl<R> MultithreadedReader<R> {
                 ..
             } => {
                 drop(recycle_tx);
-                reader_handle.join().unwrap().map_err(|e| e.1)
+                Ok(reader_handle.join().unwrap())
             }
             State::Done => panic!("invalid state"),
         }
@@ -211,11 +211,7 @@ where
 
         drop(recycle_tx);
 
-        // Discard read errors.
-        let inner = match reader_handle.join().unwrap() {
-            Ok(inner) => inner,
-            Err(ReadError(inner, _)) => inner,
-        };
+        let inner = reader_handle.join().unwrap();
 
         self.state = State::Paused(inner);
     }
@@ -368,13 +364,11 @@ fn recv_buffer(read_rx: &ReadRx) -> io::Result<Option<Buffer>> {
     Ok(None)
 }
 
-struct ReadError<R>(R, io::Error);
-
 fn spawn_reader<R>(
     mut reader: R,
     read_tx: ReadTx,
     recycle_rx: RecycleRx,
-) -> JoinHandle<Result<R, ReadError<R>>>
+) -> JoinHandle<R>
 where
     R: Read + Send + 'static,
 {
@@ -385,7 +379,14 @@ where
             match read_frame_into(&mut reader, &mut buffer.buf) {
                 Ok(result) if result.is_none() => break,
                 Ok(_) => {}
-                Err(e) => return Err(ReadError(reader, e)),
+                Err(e) => {
+                    // Hand the read error to the consumer in stream order, i.e., after the
+                    // blocks that precede it, like a block error.
+                    let (buffered_tx, buffered_rx) = crossbeam_channel::bounded(1);
+                    let _ = buffered_tx.send(Err(e));
+                    let _ = read_tx.send(buffered_rx);
+                    break;
+                }
             }
 
             let (buffered_tx, buffered_rx) = crossbeam_channel::bounded(1);
@@ -407,7 +408,7 @@ where
             }
         }
 
-        Ok(reader)
+        reader
     })
 }
 
